@@ -1041,6 +1041,10 @@ func runMergeChild(which string, c *ev.ChildEnv, res *ev.Result) {
 		res.Count(fmt.Sprintf("cases_with_%d_in_flight", R), int64(hi-lo))
 	}
 	res.Count(fmt.Sprintf("rig_plugins_%d", n), 1)
+	if which == "C05" && c.Batch == 0 {
+		m.close()
+		runNoPlugins(c, res, g, mc)
+	}
 	if which == "C01" && n == 2 {
 		m.close()
 		runTwins(c, res, g, rng)
